@@ -85,6 +85,34 @@ def describe_place(fz, pl, depth=0):
     return root + rest
 
 
+def range_desc(fz, body, op):
+    """`start..end` with the endpoints described like other operands (provenance, arithmetic shape), from the single Range
+    aggregate that defines the operand; None when the range is not built locally"""
+    pl = mir.op_place(op)
+    if pl is None or pl["p"]:
+        return None
+    defs = []
+    for bi, si, s in body.stmts():
+        if s["k"] == "assign" and not s["p"]["p"] and s["p"]["l"] == pl["l"]:
+            defs.append(s)
+    if len(defs) != 1 or defs[0]["rv"]["r"] != "agg" or "Range" not in (defs[0]["rv"].get("adt") or ""):
+        return None
+    rv = defs[0]["rv"]
+    adt = rv["adt"].split("::")[-1]
+    ops = [describe_operand(fz, o) for o in rv["ops"]]
+    if adt == "Range" and len(ops) == 2:
+        return "%s..%s" % (ops[0], ops[1])
+    if adt == "RangeFrom" and len(ops) == 1:
+        return "%s.." % ops[0]
+    if adt == "RangeTo" and len(ops) == 1:
+        return "..%s" % ops[0]
+    if adt == "RangeInclusive":
+        return "%s..=%s" % (ops[0], ops[1]) if len(ops) >= 2 else None
+    if adt == "RangeToInclusive" and len(ops) == 1:
+        return "..=%s" % ops[0]
+    return None
+
+
 class Obligation:
     def __init__(self, fid, kind, desc, where, line, src, proved, need, bb=None):
         self.bb = bb
@@ -359,7 +387,7 @@ def obligations_of(body, prog, entry=None, stdp=None):
                     kind = "Slice:" + cont
                     need = "start <= end <= len" + (" on char boundaries" if cont == "str" else "")
                     rn = range_nodes(fz, z, a1)
-                    desc = "%s[%s]" % (describe_operand(fz, a0), idx_ty.replace("std::ops::", ""))
+                    desc = "%s[%s]" % (describe_operand(fz, a0), range_desc(fz, body, a1) or idx_ty.replace("std::ops::", ""))
                     if rn is not None and ln is not None and cont != "str":
                         st, en = rn
                         has_start = "RangeTo" not in idx_ty or "RangeToInclusive" in idx_ty and False
@@ -423,11 +451,13 @@ def obligations_of(body, prog, entry=None, stdp=None):
     # keys: (function, kind, desc, ordinal among equal (kind,desc) in source order)
     out.sort(key=lambda o: (o.line, o.kind, o.desc))
     seen = {}
+    # the ordinal counts only the obligations the analysis could not discharge (those are the ones that are looked up in the
+    # reviewed table): removing or adding a provable sibling does not renumber them
     for o in out:
         base = "%s | %s | %s" % (o.fid, o.kind, o.desc)
-        n = seen.get(base, 0)
-        seen[base] = n + 1
-        o.key = "%s | #%d" % (base, n)
+        n = seen.get((base, o.proved), 0)
+        seen[(base, o.proved)] = n + 1
+        o.key = "%s | #%s%d" % (base, "p" if o.proved else "", n)
     return out, fz
 
 
